@@ -412,6 +412,24 @@ def run_arbitrary(case):
     return Outcome(vio, labels, nontrivial)
 
 
+def fuzz_one(data):
+    """Atheris entry (E4): O3 on raw bytes, oracle inside"""
+    vio = []
+    kind = check_bytes(data, vio)
+    check_transport(data, kind if kind != "exception" else "skip", vio)
+    return vio, kind, kind.startswith("message") and len(data) > 4
+
+
+def _atheris(tier, seed, known):
+    import os
+
+    from vlib import fuzz
+
+    runs = {"quick": 30000, "thorough": 1500000}[tier]
+    workers = {"quick": 2, "thorough": 16}[tier]
+    return fuzz.run("checks.c01", runs, workers, seed, known, corpus=os.path.join(os.path.dirname(os.path.dirname(os.path.abspath(__file__))), "corpus", "c01"))
+
+
 # ---- exhaustive sweeps -------------------------------------------------------------
 
 
@@ -564,7 +582,7 @@ RULE = (
     "equal the reference decoder's reading. arbitrary: random bytes, plausible headers + noise, and 1-3 byte-level "
     "mutations (set/flip/insert/delete/truncate) of well-formed datagrams -- oracle: UnparsableMessage, or a message that "
     "re-encodes, re-parses field-equal and encodes idempotently; same bytes through MessageInterfaceUDP6.datagram_msg_received "
-    "must not raise. extfield/headers: finite sweeps. Non-trivial = roundtrip/wellformed case with >=1 extended (13/14) "
+    "must not raise. atheris: the same byte-level oracle as a coverage-guided libFuzzer target. extfield/headers: finite sweeps. Non-trivial = roundtrip/wellformed case with >=1 extended (13/14) "
     "delta or length; mutation whose parse outcome class differs from its parent's; random bytes that parse into a "
     "message longer than the header; header sweep cell with at least one parsable datagram. Distinct = SHA-1 of the canonical JSON case."
 )
@@ -575,6 +593,7 @@ def build(tier):
         Sub("roundtrip", run_roundtrip, strategy=_message, budget={"quick": 6000, "thorough": 150000}, max_wall={"quick": 50, "thorough": 1500}),
         Sub("wellformed", run_wellformed, strategy=_wire_fields, budget={"quick": 6000, "thorough": 150000}, max_wall={"quick": 50, "thorough": 1500}),
         Sub("arbitrary", run_arbitrary, strategy=_arbitrary, budget={"quick": 8000, "thorough": 200000}, max_wall={"quick": 50, "thorough": 1500}),
+        Sub("atheris", run_arbitrary, strategy=_arbitrary, external=_atheris, note="coverage-guided (libFuzzer via Atheris) over raw datagrams with the round-trip / exception-class / reference-agreement oracle inside the target; half of the workers start from an empty corpus, half from 4 valid datagrams; skipped with a note if atheris is not installed"),
         Sub("extfield", run_extfield, cases=cases_extfield, exhaustive=True, note="_write/_read_extended_field_value over 0..66104 and all 16 nibbles x 7 tails"),
         Sub("headers", run_headers, cases=cases_headers, exhaustive=True, note="all 65536 (first byte, code) pairs x %d fixed tails" % len(_TAILS)),
     ]
